@@ -34,7 +34,10 @@
 #include <etl/vector.hpp>
 
 #include <algorithm>
+#include <bitset>
 #include <functional>
+#include <limits>
+#include <stdexcept>
 #include <sys/wait.h>
 #include <unistd.h>
 
@@ -45,6 +48,9 @@ using Vec = std::vector<LL>;
 // ---------------------------------------------------------------- handler + fork machinery
 static int g_pipe = -1;
 static std::function<std::string()> g_snap;
+// valid calls that bring the object into its pre-state (hist=...): run in the child, before the pre-state snapshot, so that a
+// (mutated) library whose valid call fires the handler is reported for this case line instead of killing the harness
+static std::function<void()> g_setup;
 
 namespace etl {
 template <typename Assertion>
@@ -106,7 +112,7 @@ static std::string san_kind(std::string const& err, int status)
 // `snap`: canonical text of the object under test (callable in the handler); `body`: the call, returns the ok-line.
 static std::string in_child(std::function<std::string()> snap, std::function<std::string()> body)
 {
-    std::string pre = snap ? snap() : std::string("-");
+    std::string pre;
     int p[2], q[2];
     if (::pipe(p) != 0 || ::pipe(q) != 0) { std::perror("pipe"); std::exit(2); }
     std::fflush(stdout);
@@ -118,6 +124,9 @@ static std::string in_child(std::function<std::string()> snap, std::function<std
         ::dup2(q[1], 2);
         g_pipe = p[1];
         g_snap = snap;
+        if (g_setup) g_setup();
+        std::string ps = "P " + (snap ? snap() : std::string("-")) + "\n";
+        (void)!::write(p[1], ps.data(), ps.size());
         std::string r = body() + "\n";
         (void)!::write(p[1], r.data(), r.size());
         ::_exit(0);
@@ -130,6 +139,11 @@ static std::string in_child(std::function<std::string()> snap, std::function<std
     ::close(q[0]);
     int status = 0;
     ::waitpid(pid, &status, 0);
+    if (out.rfind("P ", 0) == 0) { // the pre-state snapshot taken in the child after the setup calls
+        auto nl = out.find('\n');
+        pre     = out.substr(2, nl == std::string::npos ? std::string::npos : nl - 2);
+        out     = nl == std::string::npos ? std::string() : out.substr(nl + 1);
+    } else pre = "<setup did not finish>";
     if (!out.empty() && out.back() == '\n') out.pop_back();
     if (WIFEXITED(status) && WEXITSTATUS(status) == 42 && out.rfind("A ", 0) == 0) {
         auto sp          = out.find(' ', 2);
@@ -171,6 +185,78 @@ static Vec LST(Line const& l, char const* k) { return l.has(k) ? l.list(k) : Vec
 static std::string both(std::string const& a, std::string const& b) { return a + "\t" + b; }
 static std::string const ASSERT = "assert";
 
+// ---------------------------------------------------------------- members behind the public interface
+// The inner check sites (unsafe_set_size, unsafe_destroy) are implied by the outer documented preconditions and cannot be
+// reached with a violating argument through the public members.  They are driven directly:
+//  * the protected members of the static_vector storage classes through a derived class that re-exports them;
+//  * the private `unsafe_set_size` of inplace_vector / basic_inplace_string through a member pointer obtained in an
+//    explicit template instantiation (access checking does not apply to the arguments of an explicit instantiation,
+//    [temp.spec]/6) - no edit of the library, no -fno-access-control.
+template <typename Tag, auto M>
+struct Rob {
+    friend auto rob_get(Tag) { return M; }
+};
+#pragma GCC diagnostic push
+#pragma GCC diagnostic ignored "-Wnon-template-friend"
+template <std::size_t Cap>
+struct IvSetSize {
+    friend auto rob_get(IvSetSize);
+};
+template <std::size_t Cap>
+struct StrSetSize {
+    friend auto rob_get(StrSetSize);
+};
+#pragma GCC diagnostic pop
+template struct Rob<IvSetSize<1>, &etl::inplace_vector<int, 1>::unsafe_set_size>;
+template struct Rob<IvSetSize<3>, &etl::inplace_vector<int, 3>::unsafe_set_size>;
+template struct Rob<IvSetSize<4>, &etl::inplace_vector<int, 4>::unsafe_set_size>;
+template struct Rob<StrSetSize<4>, &etl::inplace_string<4>::unsafe_set_size>;
+template struct Rob<StrSetSize<20>, &etl::inplace_string<20>::unsafe_set_size>;
+
+template <typename T, std::size_t Cap>
+struct OpenStorage : etl::detail::static_vector_storage_type<T, Cap> {
+    using base = etl::detail::static_vector_storage_type<T, Cap>;
+    using base::unsafe_destroy;
+    using base::unsafe_set_size;
+};
+
+// sv.unsafe_set_size / sv.unsafe_destroy on the storage base of static_vector<T, Cap>
+template <typename T, std::size_t Cap>
+static std::string sv_unsafe(Line const& l)
+{
+    using V        = OpenStorage<T, Cap>;
+    Vec const e    = LST(l, "e");
+    auto const& op = l.op;
+    auto* v        = new V();
+    if constexpr (Cap != 0) {
+        for (auto x : e) v->emplace_back(T(static_cast<int>(x)));
+    }
+    auto state = [v] {
+        Vec r;
+        std::size_t n = std::min<std::size_t>(v->size(), Cap);
+        for (std::size_t k = 0; k < n; ++k) r.push_back(static_cast<LL>(static_cast<int>(v->data()[k])));
+        if (v->size() > Cap) r.push_back(-999999);
+        return r;
+    };
+    auto snap = [state] { return fmt(state()); };
+    std::string impl, oracle;
+    if (op == "sv.unsafe_set_size") {
+        std::size_t n = SZ(l, "n");
+        impl   = in_child(snap, [&] { v->unsafe_set_size(n); return okstr({}, state()); });
+        oracle = n <= Cap ? okstr({}, Vec(e.begin(), e.begin() + static_cast<LL>(std::min(n, e.size())))) : ASSERT;
+    } else if (op == "sv.unsafe_destroy") {
+        LL f = l.i("f"), la = l.i("l");
+        auto sz = static_cast<LL>(e.size());
+        impl = in_child(snap, [&] { v->unsafe_destroy(v->data() + f, v->data() + la); return okstr({}, state()); });
+        oracle = (f >= 0 && f <= sz && la >= 0 && la <= sz) ? okstr({}, e) : ASSERT;
+    } else {
+        delete v;
+        return "bad-op\tbad-op";
+    }
+    delete v;
+    return both(impl, oracle);
+}
+
 // ---------------------------------------------------------------- static_vector
 template <typename T, std::size_t Cap>
 static std::string sv_ops(Line const& l)
@@ -180,6 +266,15 @@ static std::string sv_ops(Line const& l)
     auto const& op = l.op;
     auto* v        = new V();
     for (auto x : e) v->push_back(T(static_cast<int>(x)));
+    // hist=1..3: the same abstract state reached through insert/erase, pop/push, resize up and down (valid calls only)
+    if constexpr (Cap != 0) {
+        int const hist = static_cast<int>(l.i("hist", 0));
+        g_setup = [v, hist, n0 = e.size()] {
+            if (hist == 1 && n0 < Cap) { v->insert(v->begin(), T(77)); v->erase(v->begin()); }
+            if (hist == 2 && n0 != 0) { T last = v->back(); v->pop_back(); v->emplace_back(last); }
+            if (hist == 3) { v->resize(Cap); v->resize(n0); }
+        };
+    }
     V const* cv = v;
     auto snap   = [v] { return fmt(contents(*v, Cap)); };
     int const k = static_cast<int>(l.i("k", 0));
@@ -245,6 +340,12 @@ static std::string sv_ops(Line const& l)
             ref.insert(ref.begin() + p, xs.begin(), xs.end());
             oracle = okstr({p}, ref);
         } else oracle = ASSERT;
+    } else if (op == "sv.move_insert") { // the public member move_insert(position, first, last) with a pointer range
+        impl = done([&] { auto it = v->move_insert(v->begin() + p, sf, sl); return Vec{static_cast<LL>(it - v->begin())}; });
+        if (pos_ok(p) && ord && e.size() + xs.size() <= Cap) {
+            ref.insert(ref.begin() + p, xs.begin(), xs.end());
+            oracle = okstr({p}, ref);
+        } else oracle = ASSERT;
     } else if (op == "sv.erase") {
         impl = done([&] { auto it = v->erase(v->begin() + p); return Vec{static_cast<LL>(it - v->begin())}; });
         if (p >= 0 && p < sz) {
@@ -304,6 +405,13 @@ static std::string iv_ops(Line const& l)
     auto const& op = l.op;
     auto* v        = new V();
     for (auto x : e) v->try_push_back(static_cast<int>(x));
+    if constexpr (Cap != 0) { // hist=1,2: the same abstract state reached through push/pop
+        int const hist = static_cast<int>(l.i("hist", 0));
+        g_setup = [v, hist, n0 = e.size()] {
+            if (hist == 1 && n0 < Cap) { v->unchecked_push_back(77); v->pop_back(); }
+            if (hist == 2 && n0 != 0) { int last = v->back(); v->pop_back(); v->unchecked_emplace_back(last); }
+        };
+    }
     V const* cv = v;
     auto snap   = [v] { return fmt(contents(*v, Cap)); };
     int const k = static_cast<int>(l.i("k", 0));
@@ -337,6 +445,12 @@ static std::string iv_ops(Line const& l)
         impl = done([&] { v->pop_back(); return Vec{}; });
         if (!ref.empty()) ref.pop_back();
         oracle = !e.empty() ? okstr({}, ref) : ASSERT;
+    } else if (op == "iv.unsafe_set_size") { // the private member, see Rob
+        std::size_t n = SZ(l, "n");
+        if constexpr (Cap != 0) { // inplace_vector<T, 0> has no size field
+            impl = done([&] { (v->*rob_get(IvSetSize<Cap>{}))(n); return Vec{}; });
+        } else return "bad-op\tbad-op";
+        oracle = n <= Cap ? okstr({}, Vec(e.begin(), e.begin() + static_cast<LL>(std::min(n, e.size())))) : ASSERT;
     } else {
         delete v;
         return "bad-op\tbad-op";
@@ -480,6 +594,14 @@ static std::string str_ops(Line const& l)
     auto const& op = l.op;
     auto* s        = new S();
     for (auto x : e) s->push_back(static_cast<char>(x));
+    { // hist=1..3: the same abstract state reached through insert/erase, pop/push, a longer string that was cut back
+        int const hist = static_cast<int>(l.i("hist", 0));
+        g_setup = [s, hist, n0 = e.size()] {
+            if (hist == 1 && n0 < Cap) { s->insert(0, 1, 'Z'); s->erase(0, 1); }
+            if (hist == 2 && n0 != 0) { char last = s->back(); s->pop_back(); s->push_back(last); }
+            if (hist == 3) { s->append(Cap - n0, 'Q'); s->erase(n0, Cap); }
+        };
+    }
     S const* cs = s;
     auto state  = [s] {
         Vec o;
@@ -536,6 +658,9 @@ static std::string str_ops(Line const& l)
         impl = done([&] { s->pop_back(); return Vec{}; });
         if (n) ref.pop_back();
         oracle = n ? okstr({}, ref) : ASSERT;
+    } else if (op == "str.unsafe_set_size") { // the private member, see Rob
+        impl   = done([&] { (s->*rob_get(StrSetSize<Cap>{}))(a); return Vec{}; });
+        oracle = a <= Cap ? okstr({}, Vec(e.begin(), e.begin() + static_cast<LL>(std::min(a, n)))) : ASSERT;
     } else if (op == "str.erase_rng") { // a = start, b = distance
         impl = done([&] { auto it = s->erase(s->cbegin() + static_cast<LL>(a), s->cbegin() + static_cast<LL>(a) + static_cast<LL>(b)); return Vec{static_cast<LL>(it - s->begin())}; });
         if (a <= n && b <= n - a) {
@@ -735,6 +860,40 @@ static std::string bs_ops(Line const& l)
     return both(impl, oracle);
 }
 
+// bs.to_u: to_ulong() (w = 0) / to_ullong() (w = 1) of a bitset<N>; d = the digits of the result type the case was
+// generated for (checked against this platform).  Oracle: std::bitset<N>, which throws overflow_error exactly when the
+// value cannot be represented.  The result is printed as its two 32-bit halves (low, high).
+template <std::size_t N>
+static std::string bs_tou(Line const& l)
+{
+    Vec const e = LST(l, "e");
+    int const w = static_cast<int>(l.i("w", 0));
+    std::size_t const d = SZ(l, "d");
+    std::size_t const digits = w == 0 ? std::numeric_limits<unsigned long>::digits : std::numeric_limits<unsigned long long>::digits;
+    if (d != digits || e.size() != N) return "bad-op\tbad-op";
+    auto* b = new etl::bitset<N>();
+    std::bitset<N> sb;
+    for (std::size_t i = 0; i < N; ++i) {
+        if (e[i]) { b->set(i); sb.set(i); }
+    }
+    auto state  = [b] { Vec o; for (std::size_t i = 0; i < N; ++i) o.push_back(b->test(i) ? 1 : 0); return o; };
+    auto snap   = [state] { return fmt(state()); };
+    auto halves = [](unsigned long long r) { return Vec{static_cast<LL>(r & 0xFFFFFFFFULL), static_cast<LL>(r >> 32)}; };
+    std::string impl = in_child(snap, [&] {
+        unsigned long long r = w == 0 ? static_cast<unsigned long long>(b->to_ulong()) : b->to_ullong();
+        return okstr(halves(r), state());
+    });
+    std::string oracle;
+    try {
+        unsigned long long r = w == 0 ? static_cast<unsigned long long>(sb.to_ulong()) : sb.to_ullong();
+        oracle = okstr(halves(r), e);
+    } catch (std::overflow_error const&) {
+        oracle = ASSERT;
+    }
+    delete b;
+    return both(impl, oracle);
+}
+
 static std::string bs_ctor(Line const& l)
 {
     Vec const e = LST(l, "e"); // the characters '0'/'1' as 0/1
@@ -894,11 +1053,27 @@ static std::string sc_ops(Line const& l)
     return both(impl, oracle);
 }
 
+static std::string step_(Line const& l);
 static std::string step(Line const& l)
+{
+    g_setup = nullptr;
+    std::string r = step_(l);
+    g_setup = nullptr;
+    return r;
+}
+
+static std::string step_(Line const& l)
 {
     auto const& op = l.op;
     auto pre = op.substr(0, op.find('.'));
     std::size_t cap = l.has("cap") ? static_cast<std::size_t>(l.i("cap")) : 0;
+    if (op == "sv.unsafe_set_size" || op == "sv.unsafe_destroy") {
+        std::string T = l.has("T") ? l.str("T") : "triv";
+        if (T == "zero") return op == "sv.unsafe_set_size" ? sv_unsafe<int, 0>(l) : "bad-op\tbad-op";
+        if (T == "nontriv") return cap == 3 ? sv_unsafe<NT, 3>(l) : "bad-op\tbad-op";
+        if (op == "sv.unsafe_destroy") return "bad-op\tbad-op"; // the trivial storage has no checks there
+        return cap == 1 ? sv_unsafe<int, 1>(l) : cap == 3 ? sv_unsafe<int, 3>(l) : cap == 4 ? sv_unsafe<int, 4>(l) : "bad-op\tbad-op";
+    }
     if (pre == "sv") {
         std::string T = l.has("T") ? l.str("T") : "triv";
         if (T == "zero") return sv_ops<int, 0>(l);
@@ -910,12 +1085,24 @@ static std::string step(Line const& l)
         if (cap == 256) return sv_ops<int, 256>(l); // ... and to uint16_t from 256 (smallest_size_t)
         return "bad-op\tbad-op";
     }
-    if (pre == "iv") return cap == 1 ? iv_ops<1>(l) : cap == 3 ? iv_ops<3>(l) : cap == 4 ? iv_ops<4>(l) : "bad-op\tbad-op";
+    if (pre == "iv") return cap == 0 ? iv_ops<0>(l) : cap == 1 ? iv_ops<1>(l) : cap == 3 ? iv_ops<3>(l) : cap == 4 ? iv_ops<4>(l) : "bad-op\tbad-op";
     if (pre == "vw" || pre == "sp") return view_ops(l);
     if (pre == "ar") return cap == 0 ? ar_ops<0>(l) : cap == 1 ? ar_ops<1>(l) : cap == 3 ? ar_ops<3>(l) : "bad-op\tbad-op";
     if (pre == "str") return cap == 4 ? str_ops<4>(l) : cap == 20 ? str_ops<20>(l) : "bad-op\tbad-op";
     if (pre == "opt" || pre == "exp" || pre == "var") return oev_ops(l);
     if (op == "bs.ctor") return bs_ctor(l);
+    if (op == "bs.to_u") {
+        switch (cap) {
+        case 5: return bs_tou<5>(l);
+        case 11: return bs_tou<11>(l);
+        case 40: return bs_tou<40>(l);
+        case 64: return bs_tou<64>(l);
+        case 65: return bs_tou<65>(l);
+        case 70: return bs_tou<70>(l);
+        case 130: return bs_tou<130>(l);
+        default: return "bad-op\tbad-op";
+        }
+    }
     if (pre == "bb" || pre == "bs") return cap == 5 ? bs_ops<5>(l) : cap == 11 ? bs_ops<11>(l) : "bad-op\tbad-op";
     return sc_ops(l);
 }
